@@ -283,6 +283,8 @@ func VH_C11_relay_survives_reload() {
 	// arms a deadline on an established relay
 	verifAssert("C02.relay-across-listener-close.client-data-intact", len(target.written) == 5 && verifBytesEq(target.written, append(append([]byte{}, d1...), d2...)))
 	verifAssert("C02.relay-across-listener-close.no-deadline-on-the-relay", len(conn.deadlines) == 2 && conn.deadlines[1].IsZero())
+	verifQuiesce()
+	verifAssert("C18.relay-across-listener-close.no-goroutine-left", verifBlockedIn("proxyConnection") == 0)
 	verifReach("C11.relay.done", true)
 }
 
